@@ -23,36 +23,36 @@ const (
 )
 
 type tableCfg struct {
-	seats      int
-	rule       string
-	mode       string
-	minPlayers int
-	ante       int64
-	dealerB    int64
-	sb         int64
-	bb         int64
-	actionTime int
-	interval   int
-	nPlayers   int
-	horizonMs  int64
-	faultEndMs int64
-	admin      bool // admin interventions enabled
-	pauseClose bool // external pause/close/release requests enabled
-	leaves     bool
-	topups     bool
-	lateJoin   bool
-	blindOps   bool
-	rogue      bool
-	backendF   bool
-	judge      bool // wrap client calls in judged (atomic before/after) sections
-	withhold   int  // per-mille probability that a client withholds an answer during the fault window
-	netFaults  bool
-	allinBias  int
-	preJoin    bool // players given in CreateTable setting
-	midLeave   bool // allow a dealt-in player to leave while the hand runs (known finding territory)
-	slowSub    bool
+	seats       int
+	rule        string
+	mode        string
+	minPlayers  int
+	ante        int64
+	dealerB     int64
+	sb          int64
+	bb          int64
+	actionTime  int
+	interval    int
+	nPlayers    int
+	horizonMs   int64
+	faultEndMs  int64
+	admin       bool // admin interventions enabled
+	pauseClose  bool // external pause/close/release requests enabled
+	leaves      bool
+	topups      bool
+	lateJoin    bool
+	blindOps    bool
+	rogue       bool
+	backendF    bool
+	judge       bool // wrap client calls in judged (atomic before/after) sections
+	withhold    int  // per-mille probability that a client withholds an answer during the fault window
+	netFaults   bool
+	allinBias   int
+	preJoin     bool // players given in CreateTable setting
+	midLeave    bool // allow a dealt-in player to leave while the hand runs (known finding territory)
+	slowSub     bool
 	atomicCalls bool // harness calls run as atomic (judgeable) sections; false = they interleave with the engine at statement level
-	stampede   bool // C16: every participant submits game actions at every turn, concurrently and in duplicate
+	stampede    bool // C16: every participant submits game actions at every turn, concurrently and in duplicate
 }
 
 type delivery struct {
@@ -364,6 +364,9 @@ func (w *tableWorld) Run(c *Ctx) {
 	}
 	if g.rogue {
 		simrt.Go(0, "rogue", w.rogueTask)
+	}
+	if g.admin || w.focus("C15") {
+		simrt.Go(0, "extender", w.extenderTask)
 	}
 	// horizon
 	for c.NowMs() < g.horizonMs && !c.Stopped() {
@@ -1187,6 +1190,53 @@ func (w *tableWorld) rogueTask() {
 		amt := int64(st.Draw(200))
 		c.Fault("F2_rogue_action")
 		w.act(id, a, amt, "rogue")
+	}
+}
+
+// ---- deadline extensions (C15) ------------------------------------------------------------------
+
+func (w *tableWorld) extenderTask() {
+	c := w.c
+	st := c.St.Get("client.extender")
+	for c.NowMs() < w.cfg.horizonMs && !c.Stopped() {
+		simrt.Sleep(0, time.Duration([]int{300, 1000, 2500, 6000}[st.Draw(4)])*time.Millisecond)
+		if c.Stopped() {
+			return
+		}
+		d := 1 + st.Draw(30)
+		var before, after, ret int64
+		var err error
+		called := false
+		var key string
+		atomic := simrt.Atomic(func() {
+			tb := w.eng.GetTable()
+			if tb == nil || tb.State.GameState == nil || tb.State.CurrentActionEndAt == 0 || tb.State.Status != pt.TableStateStatus_TableGamePlaying {
+				return
+			}
+			called = true
+			before = tb.State.CurrentActionEndAt
+			key = w.mon.turnKey(tb.State.GameState)
+			id := "x"
+			if r := rosterOf(tb); len(r) > 0 {
+				id = r[st.Draw(len(r))]
+			}
+			w.mon.extensionInvoke(key, int64(d))
+			ret, err = w.eng.PlayerExtendActionDeadline(id, d)
+			after = w.eng.GetTable().State.CurrentActionEndAt
+		})
+		if !called {
+			continue
+		}
+		c.Fault("F5_deadline_extension")
+		c.Logf("EXTEND +%ds: %d -> returned %d, published %d (%v)", d, before, ret, after, err)
+		if atomic {
+			c.Judged("C15.extension")
+			if err != nil || ret != before+int64(d) || after != ret {
+				c.Viol("C15", "C15.extension_wrong", nil, "deadline %d extended by %ds: call returned %d (%v), table publishes %d", before, d, ret, err, after)
+			}
+		} else {
+			c.Inconc("not_atomic")
+		}
 	}
 }
 
